@@ -258,3 +258,25 @@ M("c16-log-twice", "C16", "C16.ONCE", (LOGA, "        self.trigger_context.attac
 M("c16-raw-message-logged", "C16", "C16.ROLE", (LOGA, "        self.trigger_context.attach_result(LogActionResult(self.location_action, log))\n", "        self.trigger_context.attach_result(LogActionResult(self.location_action, log_msg))\n"))
 M("c16-logger-untested", "C16", "C16.ONCE", (LOGA, "        if tracepoint_logger:\n            tracepoint_logger.log_tracepoint(", "        if True:\n            tracepoint_logger.log_tracepoint("))
 R("c16-keyword-call", "C16", (LOGA, "tracepoint_logger.log_tracepoint(self.log, self.action.id, ctx.id)", "tracepoint_logger.log_tracepoint(self.log, ctx_id=ctx.id, tp_id=self.action.id)"))
+
+# ------------------------------------------------------------------ C17
+MPI = "src/deep/api/plugin/metric/__init__.py"
+PROM = "src/deep/api/plugin/metric/prometheus_metrics.py"
+M("c17-swapped-help-unit", "C17", "C17.SIG", (METR, "metric.help, metric.unit, value)", "metric.unit, metric.help, value)"))
+M("c17-no-default-namespace", "C17", "C17.SIG", (METR, "metric.namespace or \"deep\",", "metric.namespace,"))
+M("c17-first-processor-only", "C17", "C17.FAN", (METR, "                    deep.logging.exception(\"Metric processor %s failed to process metric %s\", processor,\n                                           metric.name)\n", "                    deep.logging.exception(\"Metric processor %s failed to process metric %s\", processor,\n                                           metric.name)\n                break\n"))
+M("c17-processors-hoisted", "C17", "C17.FAN", (METR, "        metrics = self._metrics()\n        for metric in metrics:", "        metrics = self._metrics()\n        processors = self.trigger_context.config.metric_processors\n        for metric in metrics:"), (METR, "            for processor in self.trigger_context.config.metric_processors:", "            for processor in processors:"))
+M("c17-value-default-zero", "C17", "C17.VALUE", (METR, "        metric_value = 1\n", "        metric_value = 0\n"))
+M("c17-value-unguarded", "C17", "C17.VALUE", (METR, """            try:
+                metric_value = float(self.trigger_context.evaluate_expression(metric.expression))
+            except Exception:
+                deep.logging.exception("Cannot process metric expression %s", metric.expression)
+""", """            metric_value = float(self.trigger_context.evaluate_expression(metric.expression))
+"""))
+M("c17-label-key-as-value", "C17", "C17.VALUE", (METR, "                    value = label.static\n", "                    value = label.key\n"))
+M("c17-type-upper", "C17", "C17.ENUM", (METR, "        return metric_type.lower()", "        return metric_type.upper()"))
+M("c17-method-renamed", "C17", "C17.ENUM", (MPI, "    def summary(self, name: str", "    def summaries(self, name: str"))
+M("c17-impl-param-order", "C17", "C17.SIG", (PROM, "    def gauge(self, name: str, labels: Dict[str, str], namespace: str, help_string: str, unit: str, value: float):", "    def gauge(self, name: str, labels: Dict[str, str], namespace: str, unit: str, help_string: str, value: float):"))
+M("c17-noproc-consumes-budget", "C17", "C17.NOPROC", (METR, "        if self.__has_metric_processor():\n            return super().can_trigger()\n        return False", "        return super().can_trigger()"))
+M("c17-labels-of-other-metric", "C17", "C17.SIG", (METR, "            labels, value = self._process_metric(metric)", "            labels, value = self._process_metric(metrics[0])"))
+R("c17-local-alias", "C17", (METR, "            for processor in self.trigger_context.config.metric_processors:", "            cfg = self.trigger_context.config\n            for processor in cfg.metric_processors:"))
